@@ -239,11 +239,35 @@ func selectorOrderMatters(sel ipld.Node) bool {
 	return strings.Contains(buf.String(), "\"f>\"")
 }
 
-// SkipCountDesync reports whether the requestor's offline prefix (the blocks it
-// loads from its own store before the first local miss) contains a block the
-// responder does not have.
+// LinkSeqDiverge compares the sequence of links the requestor's traversal loads
+// (every block either peer holds, R_split) with the sequence the responder's own
+// traversal visits over its own store (missing links are visited, not descended),
+// position by position up to upto. do-not-send-first-blocks is a position in that
+// sequence, so the two peers only mean the same thing by it while the sequences agree.
+func LinkSeqDiverge(d *DAG, sel ipld.Node, sp Split, upto int) bool {
+	mine := Ref(d.Root, sel, SplitResolver(d, sp), 0).Loads
+	theirs := Ref(d.Root, sel, func(path string, c cid.Cid) ([]byte, bool) {
+		if sp.Rs[c] {
+			return d.Blocks[c], true
+		}
+		return nil, false
+	}, 0).Loads
+	for i := 0; i < upto && i < len(mine) && i < len(theirs); i++ {
+		if mine[i].Path != theirs[i].Path || mine[i].Cid != theirs[i].Cid {
+			return true
+		}
+	}
+	return false
+}
+
+// SkipCountDesync reports whether, within the requestor's offline prefix (the
+// blocks it loads from its own store before the first local miss - the number it
+// asks the responder to skip), the two peers' link sequences differ: the
+// requestor descended through a block the responder lacks. (A block the
+// responder lacks that has no traversed links beneath it leaves the sequences
+// aligned; the code handles that case correctly and it is checked like any other.)
 func SkipCountDesync(d *DAG, sel ipld.Node, sp Split) bool {
-	desync := false
+	n := 0
 	missed := false
 	Ref(d.Root, sel, func(path string, c cid.Cid) ([]byte, bool) {
 		if missed {
@@ -253,12 +277,10 @@ func SkipCountDesync(d *DAG, sel ipld.Node, sp Split) bool {
 			missed = true
 			return nil, false
 		}
-		if !sp.Rs[c] {
-			desync = true
-		}
+		n++
 		return d.Blocks[c], true
 	}, 0)
-	return desync && missed
+	return missed && LinkSeqDiverge(d, sel, sp, n)
 }
 
 // RefLoadsPathTwice reports whether the reference traversal loads some link path more than once.
